@@ -178,7 +178,7 @@ fn limit_sets(q_inner: &Joints, weights: &[f64]) -> Vec<Limits> {
 
 pub fn run(ctx: &Ctx) -> Report {
     let thorough = !ctx.quick();
-    let stacks = all_stacks(if thorough { 3 } else { 2 }, &wrap_alphabet());
+    let stacks = all_stacks(3, &wrap_alphabet());
     let mut stacks = stacks;
     if !thorough {
         // a few depth-3 stacks in the quick tier as well
